@@ -86,9 +86,13 @@ const (
 	FPars               // *PTok (user-implemented production)
 	FParsV              // PTok
 	FParss              // []PTok
+	FCapt               // CapStr (implements participle.Capture)
+	FCaptP              // *CapStr
+	FCapts              // []CapStr
+	FText               // TextStr (implements encoding.TextUnmarshaler)
 )
 
-var fkindNames = []string{"string", "[]string", "bool", "*string", "lexer.Token", "[]lexer.Token", "*P", "[]*P", "P", "[]P", "U", "[]U", "NamedString", "NamedBool", "*bool", "int", "[]int", "int8", "*PTok", "PTok", "[]PTok"}
+var fkindNames = []string{"string", "[]string", "bool", "*string", "lexer.Token", "[]lexer.Token", "*P", "[]*P", "P", "[]P", "U", "[]U", "NamedString", "NamedBool", "*bool", "int", "[]int", "int8", "*PTok", "PTok", "[]PTok", "CapStr", "*CapStr", "[]CapStr", "TextStr"}
 
 func (k FKind) String() string { return fkindNames[k] }
 
@@ -369,6 +373,34 @@ func (p *PTok) Parse(lex *lexer.PeekingLexer) error {
 	return nil
 }
 
+// CapStr is a field type with user-implemented capturing (participle.Capture): it records every call.
+type CapStr struct {
+	Calls string
+}
+
+// Capture implements participle.Capture.
+func (c *CapStr) Capture(values []string) error {
+	if len(values) == 0 {
+		return nil
+	}
+	c.Calls += CapCall(values)
+	return nil
+}
+
+// CapCall is how CapStr records one Capture call.
+func CapCall(values []string) string { return "[" + strings.Join(values, "\x1f") + "]" }
+
+// TextStr is a field type that implements encoding.TextUnmarshaler: it records every call.
+type TextStr struct {
+	S string
+}
+
+// UnmarshalText implements encoding.TextUnmarshaler.
+func (t *TextStr) UnmarshalText(b []byte) error {
+	t.S += "<" + string(b) + ">"
+	return nil
+}
+
 type NamedString string
 type NamedBool bool
 
@@ -380,19 +412,21 @@ var UniTypes = []reflect.Type{
 const MaxUnions = 6
 
 var (
-	tString = reflect.TypeOf("")
-	tBool   = reflect.TypeOf(true)
-	tTok    = reflect.TypeOf(lexer.Token{})
-	tToks   = reflect.TypeOf([]lexer.Token{})
-	tPos    = reflect.TypeOf(lexer.Position{})
-	tMyPos  = reflect.TypeOf(MyPos{})
-	tMixin  = reflect.TypeOf(PosMixin{})
-	tNStr   = reflect.TypeOf(NamedString(""))
-	tNBool  = reflect.TypeOf(NamedBool(false))
-	tEmpty  = reflect.TypeOf(struct{}{})
-	tInt    = reflect.TypeOf(int(0))
-	tInt8   = reflect.TypeOf(int8(0))
-	tPTok   = reflect.TypeOf(PTok{})
+	tString  = reflect.TypeOf("")
+	tBool    = reflect.TypeOf(true)
+	tTok     = reflect.TypeOf(lexer.Token{})
+	tToks    = reflect.TypeOf([]lexer.Token{})
+	tPos     = reflect.TypeOf(lexer.Position{})
+	tMyPos   = reflect.TypeOf(MyPos{})
+	tMixin   = reflect.TypeOf(PosMixin{})
+	tNStr    = reflect.TypeOf(NamedString(""))
+	tNBool   = reflect.TypeOf(NamedBool(false))
+	tEmpty   = reflect.TypeOf(struct{}{})
+	tInt     = reflect.TypeOf(int(0))
+	tInt8    = reflect.TypeOf(int8(0))
+	tPTok    = reflect.TypeOf(PTok{})
+	tCapStr  = reflect.TypeOf(CapStr{})
+	tTextStr = reflect.TypeOf(TextStr{})
 )
 
 var typeSerial uint64
@@ -468,6 +502,14 @@ func (g *Grammar) Types() []reflect.Type {
 				ft = tPTok
 			case FParss:
 				ft = reflect.SliceOf(tPTok)
+			case FCapt:
+				ft = tCapStr
+			case FCaptP:
+				ft = reflect.PtrTo(tCapStr)
+			case FCapts:
+				ft = reflect.SliceOf(tCapStr)
+			case FText:
+				ft = tTextStr
 			}
 			sf = append(sf, reflect.StructField{Name: fmt.Sprintf("F%d", fi), Type: ft, Tag: tags[fi]})
 		}
